@@ -5,6 +5,8 @@ package c06
 // (gqlparser validator.VariableValues).
 
 import (
+	"verif/internal/engineseam"
+
 	"bytes"
 	"encoding/json"
 	"fmt"
@@ -17,7 +19,6 @@ import (
 
 	"github.com/wundergraph/graphql-go-tools/execution/graphql"
 	"github.com/wundergraph/graphql-go-tools/v2/pkg/astnormalization"
-	"github.com/wundergraph/graphql-go-tools/v2/pkg/astvalidation"
 	"github.com/wundergraph/graphql-go-tools/v2/pkg/operationreport"
 	"github.com/wundergraph/graphql-go-tools/v2/pkg/variablesvalidation"
 )
@@ -98,17 +99,7 @@ func admitNoRecover(schema *graphql.Schema, query, variables string) (adm admiss
 		op.Variables = json.RawMessage(variables)
 	}
 	// 1. normalize without variable extraction
-	res, err := op.Normalize(schema,
-		astnormalization.WithRemoveFragmentDefinitions(),
-		astnormalization.WithRemoveUnusedVariables(),
-		astnormalization.WithInlineFragmentSpreads(),
-		astnormalization.WithEnableDefer(),
-		astnormalization.WithPrevalidationRules(
-			astvalidation.DeferStreamOnValidOperations(),
-			astvalidation.DeferStreamHaveUniqueLabels(),
-			astvalidation.DirectivesAreInValidLocations(),
-			astvalidation.StreamAppliedToListFieldsOnly()),
-	)
+	res, err := op.Normalize(schema, seamFirst...)
 	if err != nil {
 		return admission{Stage: "normalize", Msg: err.Error()}
 	} else if !res.Successful {
@@ -121,7 +112,7 @@ func admitNoRecover(schema *graphql.Schema, query, variables string) (adm admiss
 		return admission{Stage: "validate", Msg: vr.Errors.Error()}
 	}
 	// 3. normalize again: variable extraction, list coercion, default extraction
-	res, err = op.Normalize(schema, astnormalization.WithExtractVariables())
+	res, err = op.Normalize(schema, seamSecond...)
 	if err != nil {
 		return admission{Stage: "extract", Msg: err.Error()}
 	} else if !res.Successful {
@@ -136,9 +127,11 @@ func admitNoRecover(schema *graphql.Schema, query, variables string) (adm admiss
 	adm.FinalVars = string(op.Variables)
 	// 5. validate the variables
 	adm.Accepted = true
-	if len(op.Variables) > 0 && op.Variables[0] == '{' {
+	// mirrors ExecutionEngine.Execute (kept in step with /repo: since fix 670b72e
+	// absent or null variables are validated like {})
+	if validated, ok := seam.VariablesToValidate([]byte(op.Variables)); ok {
 		v := variablesvalidation.NewVariablesValidator(variablesvalidation.VariablesValidatorOptions{})
-		if err := v.ValidateWithRemap(op.Document(), schema.Document(), op.Variables, remap); err != nil {
+		if err := v.ValidateWithRemap(op.Document(), schema.Document(), validated, remap); err != nil {
 			adm.Accepted = false
 			adm.Stage = "variables"
 			adm.Msg = err.Error()
@@ -146,7 +139,7 @@ func admitNoRecover(schema *graphql.Schema, query, variables string) (adm admiss
 		// the same step with content exposure disabled
 		h := variablesvalidation.NewVariablesValidator(variablesvalidation.VariablesValidatorOptions{DisableExposingVariablesContent: true})
 		adm.HiddenRan = true
-		if err := h.ValidateWithRemap(op.Document(), schema.Document(), op.Variables, remap); err != nil {
+		if err := h.ValidateWithRemap(op.Document(), schema.Document(), validated, remap); err != nil {
 			adm.HiddenMsg = err.Error()
 		} else {
 			adm.HiddenAccepted = true
@@ -214,3 +207,7 @@ func gqVerdict(s *gast.Schema, op *gast.OperationDefinition, variables string) (
 func gqScalarComplaint(msg string) bool {
 	return strings.Contains(msg, "cannot use ")
 }
+
+// The engine's admission sequence is read from the tree under test (see
+// internal/engineseam) instead of being copied here.
+var seam, seamFirst, seamSecond = engineseam.Must()
